@@ -7,8 +7,8 @@ import (
 	"testing"
 
 	hexpr "github.com/rulego/streamsql/expr"
-	"github.com/rulego/streamsql/rsql"
 	"github.com/rulego/streamsql/functions"
+	"github.com/rulego/streamsql/rsql"
 )
 
 func TestDbgBridge(t *testing.T) {
